@@ -55,7 +55,7 @@ func (fr *Frame) call(in ssa.Instruction, c *ssa.CallCommon, st *State, reach st
 	short := shortCallee(name)
 
 	// 1. contract
-	if fc, ok := g.P.db.Funcs[name]; ok {
+	if fc := g.P.db.Lookup(name, g.prop); fc != nil {
 		var sig *types.Signature
 		if c.IsInvoke() {
 			sig = c.Method.Type().(*types.Signature)
@@ -375,6 +375,8 @@ func (fr *Frame) applyContract(fc *FuncContract, name, short string, ord int, si
 	return Val{Go: rt, Tup: results}
 }
 
+func (g *Gen) abstractSlices() bool { return g.fc != nil && g.fc.Opts["abstract-slices"] != "" }
+
 type modLoc struct {
 	l     *Loc
 	whole bool
@@ -418,7 +420,7 @@ func (fr *Frame) builtin(b *ssa.Builtin, c *ssa.CallCommon, rt types.Type, st *S
 		t := c.Args[0].Type().Underlying()
 		switch u := t.(type) {
 		case *types.Slice:
-			return g.goVal(app("sl.len", args[0].T), rt)
+			return g.goVal(slPart(args[0], 2), rt)
 		case *types.Basic:
 			return g.goVal(app("strlen", args[0].T), rt)
 		case *types.Map:
@@ -435,7 +437,7 @@ func (fr *Frame) builtin(b *ssa.Builtin, c *ssa.CallCommon, rt types.Type, st *S
 		}
 	case "cap":
 		if _, ok := c.Args[0].Type().Underlying().(*types.Slice); ok {
-			return g.goVal(app("sl.cap", args[0].T), rt)
+			return g.goVal(slPart(args[0], 3), rt)
 		}
 		return fr.havocVal(rt, "cap", st)
 	case "append":
@@ -487,6 +489,31 @@ func (fr *Frame) appendOp(c *ssa.CallCommon, args []Val, rt types.Type, st *Stat
 		addArr = app("select", g.heapGet(st, h), app("sl.base", add.T))
 		addOff = app("sl.off", add.T)
 	}
+	if !isString(c.Args[1].Type()) {
+		addLen = slPart(add, 2)
+		addOff = slPart(add, 1)
+		addArr = app("select", g.heapGet(st, h), slPart(add, 0))
+	}
+	if addLen == "1" {
+		// append of a single element: quantifier-free. The fresh backing array (when capacity is exceeded) is modelled
+		// as a copy of the whole old array at the same offset; cells outside [off, off+len] are unobservable.
+		elem := app("select", addArr, addOff)
+		heap := g.heapGet(st, h)
+		base, off, ln, cp := slPart(s, 0), slPart(s, 1), slPart(s, 2), slPart(s, 3)
+		oldArr := app("select", heap, base)
+		newLen := simpArith("+", ln, "1")
+		fits := g.define("app.fits", SBool, sAnd(app("<=", newLen, cp), sNot(app("=", base, "0"))))
+		ref := fr.newRef(st)
+		newCap := g.fresh("app.cap", SInt)
+		g.assume(app(">=", newCap, newLen))
+		narr := app("store", oldArr, app("+", off, ln), elem)
+		target := g.define("app.base", SInt, sIte(fits, base, ref))
+		g.heapSet(st, h, app("store", g.heapGet(st, h), target, narr))
+		r := mkSlice(target, off, newLen, sIte(fits, cp, newCap))
+		r.T = g.define("append", SSlice, r.T)
+		r.Go = rt
+		return r
+	}
 	addArr = g.define("app.src", arrSort(SInt, g.sorts.SortOf(el)), addArr)
 	oldLen := app("sl.len", s.T)
 	newLen := g.define("app.len", SInt, app("+", oldLen, addLen))
@@ -503,6 +530,13 @@ func (fr *Frame) appendOp(c *ssa.CallCommon, args []Val, rt types.Type, st *Stat
 	dstOff := sIte(fits, app("sl.off", s.T), "0")
 	srcArrOld := oldArr
 	srcOffOld := app("sl.off", s.T)
+	if g.abstractSlices() {
+		// opt abstract-slices: contents of multi-element appends are left unconstrained (sound, no quantifiers)
+		target := sIte(fits, app("sl.base", s.T), ref)
+		g.heapSet(st, h, app("store", heap, target, dst))
+		res := sIte(fits, app("mkslice", app("sl.base", s.T), app("sl.off", s.T), newLen, app("sl.cap", s.T)), app("mkslice", ref, "0", newLen, newCap))
+		return Val{T: g.define("append", SSlice, res), Go: rt, Sort: SSlice}
+	}
 	g.assume(fmt.Sprintf("(forall ((i! Int)) (! (=> (and (<= 0 i!) (< i! %s)) (= (select %s (+ %s i!)) (select %s (+ %s i!)))) :pattern ((select %s (+ %s i!)))))",
 		oldLen, dst, dstOff, srcArrOld, srcOffOld, dst, dstOff))
 	g.assume(fmt.Sprintf("(forall ((i! Int)) (! (=> (and (<= 0 i!) (< i! %s)) (= (select %s (+ %s %s i!)) (select %s (+ %s i!)))) :pattern ((select %s (+ %s %s i!)))))",
@@ -541,6 +575,10 @@ func (fr *Frame) copyOp(c *ssa.CallCommon, args []Val, rt types.Type, st *State)
 	oldArr := g.define("copy.old", arrSort(SInt, g.sorts.SortOf(el)), app("select", heap, app("sl.base", dst.T)))
 	na := g.fresh("copy.arr", arrSort(SInt, g.sorts.SortOf(el)))
 	dOff := app("sl.off", dst.T)
+	if g.abstractSlices() {
+		g.heapSet(st, h, sIte(app(">", n, "0"), app("store", heap, app("sl.base", dst.T), na), heap))
+		return g.goVal(n, types.Typ[types.Int])
+	}
 	g.assume(fmt.Sprintf("(forall ((i! Int)) (! (=> (and (<= 0 i!) (< i! %s)) (= (select %s (+ %s i!)) (select %s (+ %s i!)))) :pattern ((select %s (+ %s i!)))))",
 		n, na, dOff, srcArr, srcOff, na, dOff))
 	g.assume(fmt.Sprintf("(forall ((i! Int)) (! (=> (or (< i! %s) (>= i! (+ %s %s))) (= (select %s i!) (select %s i!))) :pattern ((select %s i!))))",
@@ -703,7 +741,7 @@ func (g *Gen) instrWrites(fr *Frame, in ssa.Instruction, depth int) (ws []string
 			return nil, false
 		}
 		name := calleeName(c)
-		if fc, ok := g.P.db.Funcs[name]; ok {
+		if fc := g.P.db.Lookup(name, g.prop); fc != nil {
 			ws = append(ws, "Alloc")
 			// ghost updates anchored at this call in the caller's contract are handled by the caller
 			if fc.Pure {
@@ -864,7 +902,7 @@ func (fr *Frame) ghostAnchors(kind string, st *State, reach string, in ssa.Instr
 }
 
 func anchorMatches(anchor string, keys []string) bool {
-	a := strings.Join(strings.Fields(anchor), " ")
+	a := strings.ReplaceAll(strings.Join(strings.Fields(anchor), " "), modPath+"/", "")
 	for _, k := range keys {
 		if a == k {
 			return true
